@@ -11,6 +11,17 @@ BASE_NOTE = ("Trusted base: CPython's ast parser, the engines under /verif/sa (p
              "conditions of the property - and not the value-level behaviour; see DESIGN.md for what is not decided.")
 
 CLAIMS = {
+    "C09": dict(
+        text=("Static rules: (R09.1) dimension inference from the repo's own unit names: all 22 `case PeriodUnits.U` arms of Period.between build the result with from_U from a quantity "
+              "measured in U, and (R09.1b) no expression/API call/constructor keyword in the period and field code mixes units; (R09.2) month/year arithmetic of the regular calculators: the "
+              "month written is proved in [1, months_in_year] for 12- and 13-month calendars and on every constructing path the day is min(day, days_in_month(Y, M)) for the very Y, M written; "
+              "(R09.3) the day/week fast path: with every calculator's year length bounded by abstract evaluation of all _get_days_in_year overrides (tables folded; Hebrew assumed 353-385) the "
+              "day-of-year handed on is proved valid, i.e. the threshold is below the shortest year; (R09.4) a period is applied years, months, weeks, days from the original date; "
+              "(R09.6) truncating helpers, no floor operator on possibly negative totals; (R09.7) no optional calendar dropped. "
+              "Value-level laws of between for mixed unit sets and Hebrew/Badi month arithmetic are not decided."),
+        design_ref="DESIGN.md section 3, C09",
+        technique="static analysis: unit-of-measure inference, term evaluation of construction paths, interval abstract interpretation with folded tables",
+    ),
     "C16": dict(
         text=("Static rules: (R16.1) parameter influence: by intra-procedural def-use closure (with control dependence of assigning branches, guards that only raise excluded) every parameter "
               "of the 18 week/weekday constructors, navigators and adjusters reaches the returned value; (R16.2) range prover + linear forms: the numeric day of week is in [1,7] on both sign arms, "
